@@ -15,7 +15,7 @@ LEGAL_USER = {
     8: ['GEN', 'RLRP', 'AB'], 9: ['RLRP', 'AB'], 10: ['AB'], 11: ['AB'], 12: ['RLRP', 'AB'],
 }
 
-PEER_KINDS = ['RQ', 'AC', 'RJ', 'PD0', 'PDC', 'PDD', 'PDM', 'RLRQ', 'RLRP', 'AB', 'UNK']
+PEER_KINDS = ['RQ', 'AC', 'RJ', 'PD0', 'PDC', 'PDD', 'PDM', 'RLRQ', 'RLRP', 'AB', 'UNK', 'UNK0']
 
 
 class Walker(object):
